@@ -342,8 +342,9 @@ def judge(tree, events, outcome, bounds, dead_before, ck, selector_call):
             # expression: the direct evaluation stops at its first failure)
             return ('operand-evaluated-more-than-once',
                     f'after-{first_t}-in-its-body', events[raises[0]][0])
-        return ('operand-evaluated-after-operand-failure', f'after-{first_t}',
-                events[raises[0] + 1][0])
+        # the evaluation went on after an operand failed
+        return ('operand-failure-not-propagated', f'{first_t}',
+                events[raises[0]][0])
     for ev in events:
         want = bounds.get(ev[0])
         if want is not None and not _same_bound(want, ev[1]):
@@ -352,7 +353,7 @@ def judge(tree, events, outcome, bounds, dead_before, ck, selector_call):
     kernel_excs = set()
     if not ck.is_exc(outcome):
         if raises:
-            return ('operand-exception-swallowed', f'{first_t}',
+            return ('operand-failure-not-propagated', f'{first_t}',
                     events[raises[0]][0])
         if any(len(by.get(lid, ())) < m for lid, m in mult.items()):
             return ('operand-not-evaluated', 'value-returned')
@@ -365,7 +366,7 @@ def judge(tree, events, outcome, bounds, dead_before, ck, selector_call):
     t = outcome[1]
     if raises:
         if t != first_t:
-            return ('operand-exception-replaced', f'{first_t}-by-{t}',
+            return ('operand-failure-not-propagated', f'{first_t}',
                     events[raises[0]][0])
         return None
     if t == 'StopStream' and any(dead_before.values()):
@@ -487,7 +488,7 @@ def run_function_case(i, rng, acc, env):
             # the same slip when the operand function is called on its own?
             site = site_of(tree, bad, hook)
             if bad[0] in ('operand-evaluated-more-than-once',
-                          'operand-exception-swallowed',
+                          'operand-failure-not-propagated',
                           'operand-arguments-differ'):
                 ev0 = events[0] if events else None
                 for ev in events:
